@@ -254,20 +254,25 @@ type alpha struct {
 	entries []string
 	symbols []string
 	q, t    int
+	twice   bool // call twice, the second time under reversed map orders
 }
 
-var typedTokens = []string{"Source: ", "Package: ", "Version: ", "Architecture: ", "Binary: ", "Files:", "Checksums-Sha256:", "Build-Depends: ", "Depends: ", "Installed-Size: ", "Essential: ",
+// BindMapOrderToggle binds a context to the calling goroutine whose map-scan order can be flipped between sorted and
+// reversed without rebinding (instrumented build); on the plain build both functions do nothing.
+var BindMapOrderToggle = func() (setReverse func(bool), unbind func()) { return func(bool) {}, func() {} }
+
+var typedTokens = []string{"Source: ", "source: ", "SOURCE: ", "Package: ", "Version: ", "VERSION: ", "Architecture: ", "Binary: ", "Files:", "Checksums-Sha256:", "Build-Depends: ", "Depends: ", "Installed-Size: ", "Essential: ",
 	"d41d8cd98f00b204e9800998ecf8427e 10 f_1.dsc", "d41d 10 devel optional f", "12", "-3", "1:1.0-1", "a (>= 1) | b [amd64]", "((", "x y", "any all", "\n", " ", "yes"}
 
 func alphabets() []alpha {
 	return []alpha{
-		{[]string{"version.Parse"}, []string{"0", "1", "a", ".", "+", "~", "-", ":", " ", "\t", "é", "٣"}, 5, 7},
-		{[]string{"dependency.ParseArch", "dependency.ParseArchitectures"}, []string{"a", "-", " ", "any", "all", "\n", "é", "!"}, 6, 8},
-		{[]string{"dependency.Parse"}, []string{"a", "b1", " ", ",", "|", "(", ")", "[", "]", "<", ">", "!", ":", "=", "$", "{", "}", "\n", "-", "é", ">=", "\t"}, 4, 5},
-		{[]string{"control.ParagraphReader", "control.ParagraphReader.Next"}, []string{"A", ":", " ", "\n", "#", ".", "\r", "\t", "é"}, 6, 8},
-		{[]string{"control.ParseDsc", "control.ParseChanges", "control.ParseControl", "control.ParseBinaryIndex", "control.ParseSourceIndex", "deb.Control"}, typedTokens, 4, 5},
+		{[]string{"version.Parse"}, []string{"0", "1", "a", ".", "+", "~", "-", ":", " ", "\t", "é", "٣"}, 5, 7, false},
+		{[]string{"dependency.ParseArch", "dependency.ParseArchitectures"}, []string{"a", "-", " ", "any", "all", "\n", "é", "!"}, 6, 8, false},
+		{[]string{"dependency.Parse"}, []string{"a", "b1", " ", ",", "|", "(", ")", "[", "]", "<", ">", "!", ":", "=", "$", "{", "}", "\n", "-", "é", ">=", "\t"}, 4, 5, false},
+		{[]string{"control.ParagraphReader", "control.ParagraphReader.Next"}, []string{"A", ":", " ", "\n", "#", ".", "\r", "\t", "é"}, 6, 8, false},
+		{[]string{"control.ParseDsc", "control.ParseChanges", "control.ParseControl", "control.ParseBinaryIndex", "control.ParseSourceIndex", "deb.Control"}, typedTokens, 4, 5, true},
 		{[]string{"changelog.Parse", "changelog.ParseOne"}, []string{"hello", " (", "1.0-1", ")", " unstable", ";", " urgency=low", "\n", "  * x", " -- ", "A <a@b>", "  ", "Mon, 02 Jan 2006 15:04:05 +0100", " ", "=", ",",
-			"hello (1.0-1) unstable; urgency=low\n", " -- A <a@b>  Mon, 02 Jan 2006 15:04:05 +0100\n", "  * change\n"}, 4, 5},
+			"hello (1.0-1) unstable; urgency=low\n", " -- A <a@b>  Mon, 02 Jan 2006 15:04:05 +0100\n", "  * change\n"}, 4, 5, false},
 	}
 }
 
@@ -367,11 +372,29 @@ func runTotality(r *mc.Run) {
 		n := len(a.symbols)
 		name := "totality-" + strings.Join(a.entries, "+")
 		r.Scenario(name, map[string]interface{}{"symbols": a.symbols, "max_symbols": L, "entry_points": a.entries}, n*n+1, func(sh int, st *mc.Stats) bool {
+			setReverse, unbind := func(bool) {}, func() {}
+			if a.twice {
+				setReverse, unbind = BindMapOrderToggle()
+			}
+			defer unbind()
 			visit := func(s string) bool {
 				for _, e := range a.entries {
 					st.Evals++
 					sl := enter(sh, e, s)
 					v, res := checkTotal(name, In{e, s}, true)
+					if v == nil && a.twice {
+						// the same call again, with every map scan inside the library in the reverse order (instrumented
+						// build; on the plain build simply a second call): the outcome must depend on the input only
+						var res2 Result
+						setReverse(true)
+						p, msg := mc.Guard(func() { res2 = entry(e).Call(s) })
+						setReverse(false)
+						if p {
+							v = mc.V(name, "returns-without-panic", In{e, s}, "a value or an error", "panic on the second call: "+msg, "entry:"+e)
+						} else if res2.key() != res.key() {
+							v = mc.V(name, "outcome-depends-only-on-input", In{e, s}, clip(res.key()), "second call: "+clip(res2.key()), "entry:"+e)
+						}
+					}
 					sl.leave()
 					if v != nil {
 						st.Violate(v)
